@@ -87,6 +87,7 @@ func newC13Env(w *core.W, kind, scenario string, seed uint64) *c13Env {
 		e.srv.Listener = tls.NewListener(e.ln, sc)
 	case "pc-sim":
 		e.pc = netsim.NewPacketConn()
+		e.pc.CloseDelay = time.Duration(seed%3) * 4 * time.Millisecond
 		e.srv.PacketConn = e.pc
 	case "tcp-real":
 		e.srv.Net, e.srv.Addr = "tcp", "127.0.0.1:0"
@@ -257,6 +258,11 @@ func (e *c13Env) shutdown(tag string, ctx context.Context) *c13Shutdown {
 			err = e.srv.Shutdown()
 		}
 		e.ctl.Note("shutdown.return", tag+" "+fmt.Sprint(err))
+		if err == nil && e.pc != nil && e.pc.ClosesDone() == 0 {
+			// "once shutdown completes no connection of the server remains": the datagram socket has been
+			// released by the time a graceful Shutdown returns, not some time later
+			e.viol("packetconn-open-when-shutdown-returns", fmt.Sprintf("Shutdown returned nil while no Close of the PacketConn had completed (Close calls begun: %d)", e.pc.Closes()))
+		}
 		s.done <- err
 	}()
 	return s
